@@ -46,6 +46,8 @@ class Target:
 
     def g(self, z):
         z = np.asarray(z, dtype=float).reshape(-1)
+        if self.bad is not None and self.c.get("bad_grad") == "nan" and float(self.bad[0] @ z) > self.bad[1]:
+            return np.full(len(z), np.nan)     # where the log-density is not finite its derivative usually is not either
         r = z - self.a
         return -(self.H @ r) - 4 * self.q * r ** 3
 
@@ -213,7 +215,7 @@ def mh_cases(draw, tier="quick", samplers=("MH", "PCN", "MALA")):
          "history": draw(st.sampled_from(["fresh", "fresh", "warmup", "reload", "rescaled"])), "hseed": draw(st.integers(0, 10 ** 6)),
          "u_mode": draw(st.sampled_from(["above", "below", "generated"])), "delta": draw(st.sampled_from([1e-9, 1e-6, 1e-3, 1e-1])),
          "u": draw(st.floats(1e-6, 1 - 1e-6)), "bad_value": draw(st.sampled_from(["nan", "-inf"])),
-         "int_start": draw(st.sampled_from([False, False, False, True]))}
+         "int_start": draw(st.sampled_from([False, False, False, True])), "bad_grad": draw(st.sampled_from(["finite", "nan"]))}
     if c["int_start"]:
         c["x"] = [float(round(v)) for v in c["x"]]
     if sampler == "PCN":
@@ -352,7 +354,7 @@ def same(a, b):
 def run_nonfinite(c, rec):
     if c["sampler"] == "PCN":
         c = dict(c, bad_value="nan")  # a -inf likelihood cannot be produced through a Gaussian data distribution without also producing NaN
-    tags = dict(tags_of(c), bad=c["bad_value"])
+    tags = dict(tags_of(c), bad=c["bad_value"], bad_grad=c.get("bad_grad", "finite"))
     if rec.classify(tags, True):
         return
     T0 = make_target(c)
